@@ -471,6 +471,11 @@ SetTag(st, id, t) ==
            base == WithoutTag(st.lines[i], t.tagn[1]) IN
        {Ok([st EXCEPT !.lines[i] = [base EXCEPT !.tags = Append(base.tags, t.tags[1]),
                                                  !.tagn = Append(base.tagn, t.tagn[1])]])}
+\* a value that the datatype of the tag cannot represent: refused at level 3 (nothing changes, not
+\* even the datatype the tag would have had); stored unchecked below (the line is then invalid)
+SetTagBad(st, id) ==
+  IF IdxNamed(st, id) = {} THEN {Fail(st, "NotFoundError"), Fail(st, "Error")}
+  ELSE IF st.vlevel >= 3 THEN {Fail(st, "Error")} ELSE {Unmodelled(st)}
 DelTag(st, id, t) ==
   LET tgt == IdxNamed(st, id) IN
   IF tgt = {} THEN {Fail(st, "NotFoundError"), Fail(st, "Error")}
@@ -511,11 +516,22 @@ AddConnected(st, l) ==
   IF \E i \in DOMAIN st.lines : Norm(st.lines[i]) = Norm(l) THEN {Fail(st, "Error")}
   ELSE {Fail(st, "NotFoundError")}
 
+\* a clone of the line named id, renamed to new, is added: exactly as if the text of the line
+\* with the other identifier had been added (the clone shares nothing with the original: later
+\* edits of either leave the other as it was)
+AddClone(st, id, new) ==
+  LET tgt == IdxNamed(st, id) IN
+  IF tgt = {} THEN {Fail(st, "NotFoundError"), Fail(st, "Error")}
+  ELSE LET t == st.lines[CHOOSE i \in tgt : TRUE] IN
+    IF t.rt \in {"L", "C"} THEN {Unmodelled(st)}
+    ELSE Add(st, [t EXCEPT !.name = new])
+
 Step(st, op) ==
   CASE op.k = "add"   -> Add(st, op.l)
+    [] op.k = "addcl" -> AddClone(st, op.id, op.id2)
     [] op.k = "addc"  -> AddConnected(st, op.l)
     [] op.k = "setf"  -> SetField(st, op.ls[1], op.ls[2], op.n, op.id2)
-    [] op.k = "settag" -> SetTag(st, op.id, op.l)
+    [] op.k = "settag" -> IF op.id2 = "bad" THEN SetTagBad(st, op.id) ELSE SetTag(st, op.id, op.l)
     [] op.k = "deltag" -> DelTag(st, op.id, op.l)
     [] op.k = "load"  -> Load(st, op.ls)
     [] op.k = "validate" -> {[st |-> st, res |-> r] : r \in ValidateRes(st)}
